@@ -1,3 +1,4 @@
+import CedarVerif.Cedar.ExprBeq
 import CedarVerif.Cedar.Validation.Schema
 import CedarVerif.Cedar.Expr
 import CedarVerif.Cedar.Ext
@@ -26,34 +27,7 @@ deriving Repr, DecidableEq, Inhabited
 
 /-! ## expression shape equality (`ExprShapeOnly`) -/
 
-mutual
-def Expr.beq : Expr → Expr → Bool
-  | .lit a, .lit b => a == b
-  | .var a, .var b => a == b
-  | .slot a, .slot b => a == b
-  | .unknown a ta, .unknown b tb => a == b && ta == tb
-  | .ite a b c, .ite a' b' c' => Expr.beq a a' && Expr.beq b b' && Expr.beq c c'
-  | .and a b, .and a' b' => Expr.beq a a' && Expr.beq b b'
-  | .or a b, .or a' b' => Expr.beq a a' && Expr.beq b b'
-  | .unaryApp o a, .unaryApp o' a' => o == o' && Expr.beq a a'
-  | .binaryApp o a b, .binaryApp o' a' b' => o == o' && Expr.beq a a' && Expr.beq b b'
-  | .call f as, .call f' as' => f == f' && Expr.beqList as as'
-  | .getAttr a k, .getAttr a' k' => Expr.beq a a' && k == k'
-  | .hasAttr a k, .hasAttr a' k' => Expr.beq a a' && k == k'
-  | .like a p, .like a' p' => Expr.beq a a' && p == p'
-  | .is a t, .is a' t' => Expr.beq a a' && t == t'
-  | .set as, .set as' => Expr.beqList as as'
-  | .record kvs, .record kvs' => Expr.beqKVs kvs kvs'
-  | _, _ => false
-def Expr.beqList : List Expr → List Expr → Bool
-  | [], [] => true
-  | a :: as, b :: bs => Expr.beq a b && Expr.beqList as bs
-  | _, _ => false
-def Expr.beqKVs : List (String × Expr) → List (String × Expr) → Bool
-  | [], [] => true
-  | (k, a) :: as, (k', b) :: bs => k == k' && Expr.beq a b && Expr.beqKVs as bs
-  | _, _ => false
-end
+-- `Expr.beq` is defined in Cedar/ExprBeq.lean
 
 /-! ## capabilities (validator/types/capability.rs) -/
 
